@@ -435,6 +435,8 @@ func addCode(err error) byte {
 		return 'f'
 	case strings.Contains(m, "position sort order"):
 		return 'p'
+	case strings.Contains(m, "without a reference ID"):
+		return 'n'
 	}
 	return 'e'
 }
@@ -1224,7 +1226,11 @@ func (g *c04Gen) unsortedCase(kind string) *c04Case {
 	for k := rnd.rng(1, 3); k > 0; k-- {
 		i := rnd.intn(len(cs.Recs))
 		r := &cs.Recs[i]
-		switch rnd.intn(6) {
+		switch rnd.intn(7) {
+		case 6: // a placed record without a reference id
+			if kind == "csi" && r.Placed {
+				r.Rid = -1
+			}
 		case 0: // swap with a neighbour
 			j := rnd.intn(len(cs.Recs))
 			a, b := cs.Recs[i], cs.Recs[j]
